@@ -525,7 +525,9 @@ func checkC13(c c13Case) (Outcome, error) {
 	tool := os.Getenv("VERIF_BIN_RDDETECTOR")
 	if c.Race {
 		tool = os.Getenv("VERIF_BIN_RDDETECTOR_RACE")
-		budget *= 8
+		if c.Scale == "1E6" {
+			budget *= 5 // the race detector slows the statistics down about tenfold; 2*10^4-bit runs stay far below the plain budget
+		}
 		out.Classes = append(out.Classes, "race-detector-build")
 	}
 	pr := runTool(dir, budget, c.Procs, "", tool, "-i", in, "-o", rep, "-n", strconv.Itoa(c.Workers))
